@@ -343,12 +343,19 @@ def _side_condition() -> dict:
         original = ast.dump(tree)
 
         full = []
-        for mutations, mutant in mu.FirstOrderMutator(operators).mutate(tree, module):
-            d = ast.dump(mutant)
-            cases += 1
-            if d == original:
-                problems.append(f"{name}: first-order mutant equals the original ({mutations[0].operator.__name__})")
-            full.append((mutations[0].operator, d))
+        try:
+            for mutations, mutant in mu.FirstOrderMutator(operators).mutate(tree, module):
+                d = ast.dump(mutant)
+                cases += 1
+                if d == original:
+                    problems.append(f"{name}: first-order mutant equals the original ({mutations[0].operator.__name__})")
+                full.append((mutations[0].operator, d))
+        except Exception as e:  # noqa: BLE001
+            # enumerating the mutants of a valid module must not fail (the operators' own consistency assertions included)
+            problems.append(f"{name}: the default enumeration raised {type(e).__name__}: {e}")
+            if ast.dump(tree) != original:
+                problems.append(f"{name}: tree changed by the (failed) default enumeration")
+            continue
         if ast.dump(tree) != original:
             problems.append(f"{name}: tree changed by the default enumeration")
         n = len(full)
@@ -357,8 +364,21 @@ def _side_condition() -> dict:
             mutator = mu.FirstOrderMutator(operators, maximum_mutants=cap, sampling_seed=seed, reorder=True)
             pool = [d for _op, d in full]
             got = []
-            for mutations, mutant in mutator.mutate(tree, module):
+            try:
+                enumerated = list((m, ast.dump(t)) for m, t in mutator.mutate(tree, module))
+            except Exception as e:  # noqa: BLE001
+                problems.append(f"{name}: the capped/reordered enumeration raised {type(e).__name__}: {e} (cap={cap})")
+                enumerated = []
+            for mutations, mutant in ():
                 d = ast.dump(mutant)
+                cases += 1
+                got.append(mutations[0].operator)
+                if d in pool:
+                    pool.remove(d)
+                else:
+                    problems.append(f"{name}: sampled mutant is not a (remaining) mutant of the full enumeration "
+                                    f"({mutations[0].operator.__name__}, cap={cap})")
+            for mutations, d in enumerated:
                 cases += 1
                 got.append(mutations[0].operator)
                 if d in pool:
@@ -377,11 +397,15 @@ def _side_condition() -> dict:
                 problems.append(f"{name}: mutation_count {mutator.mutation_count(tree, module)} != {n} (cap={cap})")
         hom = mu.HighOrderMutator(operators, hom_strategy=FirstToLastHOMStrategy(2))
         used = 0
-        for mutations, mutant in hom.mutate(tree, module):
-            cases += 1
-            used += len(mutations)
-            if ast.dump(mutant) == original:
-                problems.append(f"{name}: second-order mutant equals the original")
+        try:
+            for mutations, mutant in hom.mutate(tree, module):
+                cases += 1
+                used += len(mutations)
+                if ast.dump(mutant) == original:
+                    problems.append(f"{name}: second-order mutant equals the original")
+        except Exception as e:  # noqa: BLE001
+            problems.append(f"{name}: the second-order enumeration raised {type(e).__name__}: {e}")
+            used = n
         if used != n:
             problems.append(f"{name}: second-order enumeration used {used} of {n} first-order mutations")
         if ast.dump(tree) != original:
